@@ -1210,7 +1210,7 @@ KINDS = {"hist": (hist_case, "hdf5"), "batch": (batch_case, "hdf5"), "fits": (fi
 
 def plan(ctx):
     if ctx.thorough:
-        n = dict(hist=1500, batch=300, fits=250)
+        n = dict(hist=2600, batch=500, fits=400)
     else:
         n = dict(hist=170, batch=30, fits=30)
     return [(k, i) for k in ("hist", "batch", "fits") for i in range(n[k])]
